@@ -37,6 +37,24 @@ func gen(t *common.Trace, e common.Engine, r *common.Rng, thorough bool) {
 		ncases = 4000
 		nops = 3000
 	}
+	// corpus: the proved counterexample C01_forwarded_number_false_for_R8194 (Props/C01Deep.lean):
+	// three full intervals, then 8194 consecutive accepted drops, then a late in-window packet
+	{
+		t.Case("corpus-long-drop-run")
+		e.Reset()
+		do := func(f string, args ...any) string { return common.Do(t, e, fmt.Sprintf(f, args...)) }
+		do("newmap")
+		do("map 65535 0")
+		do("drop 0 0")
+		for _, s := range []int{1, 8193, 16384, 16385, 24577, 32768, 32769, 40961, 49152} {
+			do("map %d 0", s)
+		}
+		for i := 0; i < 8194; i++ {
+			do("drop %d 0", (49153+i)&0xFFFF)
+		}
+		do("map 3 0")
+		do("map 2 0")
+	}
 	for ci := 0; ci < ncases; ci++ {
 		t.Case(fmt.Sprint(ci))
 		e.Reset()
